@@ -421,7 +421,14 @@ def exhaustive_strings(ctx, out, j, maxlen):
             t = 0
         except ValueError:
             t = 1
-        if t != mt:
+        except TypeError as e:
+            # the private predicate no longer takes the encoded topic: the tie of this leaf is broken (reported once);
+            # the API-level runs below still judge publish() itself
+            t = None
+            if not getattr(j, "_topic_pred_broken", False):
+                j._topic_pred_broken = True
+                j.disagreement({"kind": "topic_check", "topic": s}, f"TypeError: {e}", mt)
+        if t is not None and t != mt:
             j.disagreement({"kind": "topic_check", "topic": s}, t, mt)
     out.stat("static_predicate_strings", len(strs))
 
